@@ -134,6 +134,7 @@ Write ==
   \* call the function at any moment: C01 "from any call site or thread")
   /\ Req("C01", Ev.region = "entry" => s.pend \subseteq s.twr)
   /\ Req("C14", Ev.region = "entry" => s.pend \subseteq s.twr)
+  /\ Req("C13", Ev.region = "entry" => s.pend \subseteq s.twr)     \* transparency presupposes arrival
   /\ Req("C03", Ev.region \in {"entry", "tramp"})
   /\ Req("C03", Ev.region = "entry" => \A i \in 1..Len(Ev.changed) : Ev.changed[i] <= 16)
   /\ s' = IF Ev.region = "tramp" THEN [s EXCEPT !.twr = @ \cup {Ev.name}] ELSE s
